@@ -11,6 +11,8 @@ import argparse, importlib, json, os, sys, time, traceback
 ROOT = os.path.dirname(os.path.dirname(os.path.abspath(__file__)))
 EVID = os.path.join(ROOT, "evidence")
 WORK = os.environ.get("VERIF_WORK", os.path.join(ROOT, ".work"))
+if os.environ.get("VERIF_REPO", "/repo") != "/repo":
+    EVID = os.path.join(WORK, "evidence")        # a run against a scratch copy of the repository (seed tests) never touches the registered evidence
 
 
 class Ctx:
